@@ -7,7 +7,7 @@ from vlib import core, gen
 PROP = "C17"
 META = {
     "technique": "Coq proof over a model of the per-pool rebuild watchers of session_manager.go (program counters, pool OBJECT identity, epoch comparison, dial that may fail, hot-restart swap/park/time-out on the same heap, SessionManager.Close): step-level theorems for every state and invariants over ALL event histories; tie: histories observed on the real SessionManager (hot-restart handler wrapped through sessionManagerHandlers, snapshots under the manager's lock, pool objects identified by pointer) must be accepted by the model run with a deterministic schedule of the unobservable watcher steps, plus an independent oracle",
-    "level_text": "PARTIAL. Proved: from any state in which pool id's watcher waits on the lost session of sm.pools[id], no hot restart in progress, manager open, the watcher's steps wake; timer; (failed dial; timer)^k; successful dial (any k) end with GetStream on that pool succeeding and exactly one session created (C17_heals); hotRestartState pauses the watcher; the watcher is modelled by its real steps (detect loss / close pool; wait; one critical section: identity check `sm.pools[id] != pool` then dial; then, lock released, Store) with the order read from the source on every run (go/ast: position of the comparison relative to the timer receive, Lock region shared with the dial, Store after Unlock; order of Close's statements): a watcher whose pool object was swapped out does not dial (C17_not_twice_guard); over ALL histories in which no hot-restart event for a pool is handled between its watcher's dial section and the adjacent Store, no rebuilt session is ever stored into a pool object that is no longer sm.pools[id] (C17_not_twice_partial_store_not_interleaved) — the proof depends on the check being made after the wait and atomically with the dial (C17_example_check_after_wait: checking before the wait violates it); the unrestricted statement is REFUTED by the interleaving handler-between-Unlock-and-Store (C17_not_twice_refuted, C17_example_store_race; a two-statement window of the real code, not forced on the real code); GetStream never blocks and fails exactly on a closed session (C17_fail_fast); after cancel, over all histories, watchers create at most as many sessions as were already past their timer, and none once all have returned (C17_close_stops, C17_close_final); SessionManager.Close is modelled statement by statement in the order of the code (cancelFunc; wg.Wait; one critical section closing pools and parked pools) and the hot-restart handler ignores events once the context is cancelled: for ALL histories, whenever Close has returned every watcher has returned, every pool's session is closed and nothing is parked (C17_close_returned_full — the proof depends on wg.Wait preceding the closing section; C17_example_close_order shows the swapped order returning with a live session), and that state is final: nothing is created by a watcher or by the handler over any further history (C17_close_quiesced_forever, C17_hr_event_after_cancel); after cancel and outside hotRestartState every watcher has a path of its own steps to its return (C17_close_exit_path), whereas at its loop head in hotRestartState it cannot move (C17_close_waits_for_hot_restart: Close waits for the end of the hot restart, measured ~2 s, bounded by C16's checker). Observed only: the rebuild timer fires after rebuildInterval, dials reach a listening server, the client end notices a dead peer, a cancelled context is seen before a fresh timer, goroutine termination (census).",
+    "level_text": "PARTIAL. Proved: from any state in which pool id's watcher waits on the lost session of sm.pools[id], no hot restart in progress, manager open, the watcher's steps wake; timer; (failed dial; timer)^k; successful dial (any k) end with GetStream on that pool succeeding and exactly one session created (C17_heals); hotRestartState pauses the watcher; the watcher is modelled by its real steps (detect loss / close pool; wait; one critical section: identity check `sm.pools[id] != pool`, dial, Store) with the order read from the source on every run (go/ast: position of the comparison relative to the timer receive, Lock region shared with the dial and with the Store; order of Close's statements): a watcher whose pool object was swapped out does not dial (C17_not_twice_guard); over ALL histories no rebuilt session is ever stored into a pool object that is no longer sm.pools[id] (C17_not_twice : C17_not_twice_full) — the proof depends on the check being made after the wait and on check, dial and Store being one critical section (C17_example_check_after_wait, C17_example_store_race: the two other orders violate it; the second was the code's order before its repair and is replayed on the real code through one overlay-compiled hook after the dial's Unlock, scenario storerace); GetStream never blocks and fails exactly on a closed session (C17_fail_fast); after cancel, over all histories, watchers create at most as many sessions as were already past their timer, and none once all have returned (C17_close_stops, C17_close_final); SessionManager.Close is modelled statement by statement in the order of the code (cancelFunc; wg.Wait; one critical section closing pools and parked pools) and the hot-restart handler ignores events once the context is cancelled: for ALL histories, whenever Close has returned every watcher has returned, every pool's session is closed and nothing is parked (C17_close_returned_full — the proof depends on wg.Wait preceding the closing section; C17_example_close_order shows the swapped order returning with a live session), and that state is final: nothing is created by a watcher or by the handler over any further history (C17_close_quiesced_forever, C17_hr_event_after_cancel); after cancel and outside hotRestartState every watcher has a path of its own steps to its return (C17_close_exit_path), whereas at its loop head in hotRestartState it cannot move (C17_close_waits_for_hot_restart: Close waits for the end of the hot restart, measured ~2 s, bounded by C16's checker). Observed only: the rebuild timer fires after rebuildInterval, dials reach a listening server, the client end notices a dead peer, a cancelled context is seen before a fresh timer, goroutine termination (census).",
     "level_note": "Trusted: coqc kernel; the hand-written model (tied by accepted histories of 7 scenario kinds per round); the acceptor's deterministic schedule of unobservable watcher steps (immediate reactions right after each observed event; timer + dial exactly when a rebuilt session is observed); Go runtime timers/scheduling. C17_heals is stated without interference on that pool between loss and rebuild (interference by hot restart is covered by the not_twice / paused theorems). The watcher blocks in select on the session it loaded: a NEW-epoch session lost while the parked old session is still open is only noticed when the old one closes (model and code agree; not part of the property's statement).",
 }
 
@@ -39,6 +39,8 @@ def ev_to_coq(e):
         return "OHRTick"
     if k == "timeout":
         return "OHRTimeout"
+    if k == "dial":
+        return "ODialled " + n(e["i"])
     if k == "timer":
         return "OTimer " + n(e["i"])
     if k == "closebegin":
@@ -55,7 +57,7 @@ def case_to_coq(c):
     for e in c["hist"] or []:
         o = e.get("obs")
         items.append("(%s, %s)" % (ev_to_coq(e), ("Some " + obs_to_coq(o)) if o else "None"))
-    return "{| rc_n := %s; rc_early := %s; rc_hist := %s |}" % (n(c["n"]), b(c.get("_early", False)), core.coq_list(items))
+    return "{| rc_n := %s; rc_early := %s; rc_late := %s; rc_hist := %s |}" % (n(c["n"]), b(c.get("_early", False)), b(c.get("_late", False)), core.coq_list(items))
 
 
 CODES = {1: "manager state", 2: "manager epoch", 3: "pool object behind a pool id", 4: "pool objects (epoch / liveness of their session)",
@@ -96,10 +98,50 @@ def eval_cases(cases, tag):
     return bad, counters
 
 
+def instrument_watcher():
+    """Mechanism S (light): the CURRENT session_manager.go with ONE test hook in the watcher of background(),
+    right after the sm.Unlock() that ends the critical section of the rebuild dial (nil except in the scenario
+    storerace).  If pool.session.Store(session) stands after that Unlock the hook sits between the two
+    (stored=false), otherwise after the Unlock that follows the Store (stored=true).  Nothing is written to
+    /repo: the copy goes into the overlay."""
+    src = open(os.path.join(core.REPO, "session_manager.go")).read()
+    lines = src.split("\n")
+    idial = next((i for i, l in enumerate(lines) if "newClientSession(id, sm.epoch" in l and ":=" in l), -1)
+    if idial < 0:
+        return None, "cannot find the rebuild dial `session, err := newClientSession(id, sm.epoch, ...)` in background()"
+    ind = lines[idial][:len(lines[idial]) - len(lines[idial].lstrip())]
+    istore = next((i for i in range(idial, min(idial + 40, len(lines))) if lines[i].strip() == "pool.session.Store(session)"), -1)
+    if istore < 0:
+        return None, "cannot find `pool.session.Store(session)` after the rebuild dial in background()"
+    unl = [i for i in range(idial + 1, istore) if lines[i] == ind + "sm.Unlock()"]
+    if unl:
+        at = unl[-1]
+        hook = ind + "if err == nil && vhookC17AfterDialUnlock != nil {\n" + ind + "\tvhookC17AfterDialUnlock(sm, id, pool, false)\n" + ind + "}"
+    else:
+        at = next((i for i in range(istore + 1, min(istore + 10, len(lines))) if lines[i] == ind + "sm.Unlock()"), -1)
+        if at < 0:
+            return None, "cannot find the sm.Unlock() that ends the critical section of the rebuild dial in background()"
+        hook = ind + "if vhookC17AfterDialUnlock != nil {\n" + ind + "\tvhookC17AfterDialUnlock(sm, id, pool, true)\n" + ind + "}"
+    out = "\n".join(lines[:at + 1] + [hook] + lines[at + 1:])
+    path = os.path.join(core.WORK, "c17_sm_instr_%d.go" % os.getpid())
+    with open(path, "w") as fh:
+        fh.write(out)
+    return path, None
+
+
 def run_harness(rounds, seed, tag):
     outp = os.path.join(core.WORK, "c17_%s_%d.jsonl" % (tag, os.getpid()))
-    rc, out, secs = core.go_test(PROP, "^TestVerif_C17$", {"VERIF_OUT": outp, "VERIF_N": str(rounds), "VERIF_SEED": str(seed)},
-                                 timeout=900)
+    ipath, ierr = instrument_watcher()
+    if ierr:
+        return None, "S: " + ierr, 0.0
+    try:
+        rc, out, secs = core.go_test(PROP, "^TestVerif_C17$", {"VERIF_OUT": outp, "VERIF_N": str(rounds), "VERIF_SEED": str(seed)},
+                                     timeout=900, extra_replace={os.path.join(core.REPO, "session_manager.go"): ipath})
+    finally:
+        try:
+            os.unlink(ipath)
+        except OSError:
+            pass
     if rc != 0 or not os.path.exists(outp):
         return None, "harness failed (rc=%d): %s" % (rc, out[-2500:]), secs
     recs = [json.loads(l) for l in open(outp) if l.strip()]
@@ -113,8 +155,10 @@ def run_harness(rounds, seed, tag):
             cases.append(r)
     SHAPE["last"] = shape
     early = bool(shape) and not (shape.get("check_after_timer") and shape.get("check_in_lock_with_dial"))
+    late = bool(shape) and bool(shape.get("store_after_unlock"))
     for c in cases:
         c["_early"] = early
+        c["_late"] = late
     return cases, None, secs
 
 
@@ -124,7 +168,7 @@ SHAPE = {"last": None}
 SHAPE_EXPECTED = {
     "check_after_timer": "background(): the comparison sm.pools[id] != pool stands after the receive from rebuildTimer.C",
     "check_in_lock_with_dial": "background(): that comparison and the newClientSession call stand in one sm.Lock() region",
-    "store_after_unlock": "background(): pool.session.Store(session) stands after the sm.Unlock() that follows the dial (modelled as a separate step)",
+    "store_after_unlock": "background(): pool.session.Store(session) stands inside the sm.Lock() region of the dial, before its sm.Unlock()",
     "close_wait_before_closing": "SessionManager.Close: sm.wg.Wait() precedes the closing of the pools",
     "close_under_lock": "SessionManager.Close: pools and parked pools are closed between sm.Lock() and sm.Unlock()",
 }
@@ -166,8 +210,10 @@ def check(run):
             run.add_corr_break("G: the shape of SessionManager.background()/Close could not be read from the source: %s" % ((shape or {}).get("err"),))
         else:
             for k, what in SHAPE_EXPECTED.items():
-                if not shape.get(k):
+                if bool(shape.get(k)) != (k != "store_after_unlock"):
                     run.add_corr_break("G: the source no longer has the shape the model assumes — " + what, {"shape": shape})
+    if any((c.get("notes") or {}).get("hook") for c in cases):
+        run.add_corr_break("S: the hook compiled into the watcher of background() never ran: the scenario storerace was not executed")
     for f in oracle_failures(cases):
         run.add_oracle_failure(f["signature"], f["what"], f["case"])
     model_cases = [c for c in cases if not c.get("skip_model") and not c.get("ambiguous") and c.get("hist")]
